@@ -180,3 +180,9 @@ Theorem C02_ndp_options_getter_spec : forall k v, wf v -> bytes_ok (arr v) ->
   ndp_options_at k v = Ok (ndp_options_spec k (view v)).
 Proof. exact ndp_options_at_spec. Qed.
 Print Assumptions C02_ndp_options_getter_spec.
+
+(* ---- round 7: Ether at full strength on frames with a payload / without spare capacity ---- *)
+Theorem C02_Ether_full_on_payload_frames : forall v, wf v -> bytes_ok (arr v) -> Ether_IsValid v = Ok true ->
+  (len v <> eth_hlen v \/ cap v = len v) -> getters_spec [] Ether_getters Ether_specs v.
+Proof. intros v W B H D. exact (proj2 (Ether_full_on_payload_frames v W B H D)). Qed.
+Print Assumptions C02_Ether_full_on_payload_frames.
